@@ -174,10 +174,12 @@ def make_body(rng: Rng, kind: str, templater: str = "jinja") -> tuple[str, dict]
     meta: dict[str, Any] = {"kind": kind, "inj": []}
     text = base
 
-    def add_fixable(n: int) -> None:
+    INLINE = ["double_space", "lower_kw", "comma_space", "trailing_ws", "bad_indent"]
+
+    def add_fixable(n: int, inline_only: bool = False) -> None:
         nonlocal text
         for _ in range(n):
-            name = rng.choice(sorted(FIXABLE))
+            name = rng.choice(INLINE if inline_only else sorted(FIXABLE))
             t2 = FIXABLE[name](rng, text)
             if t2 is not None and t2 != text:
                 text = t2
@@ -192,7 +194,7 @@ def make_body(rng: Rng, kind: str, templater: str = "jinja") -> tuple[str, dict]
         if rng.chance(0.5):
             add_fixable(1)
     elif kind == "parse_err":
-        add_fixable(rng.randint(0, 2))
+        add_fixable(rng.randint(1, 2), inline_only=True)
         text = brk_parse(rng, text)
         sup = rng.choice(["none", "none", "noqa", "noqa_all"])
         if sup == "noqa":
@@ -205,10 +207,10 @@ def make_body(rng: Rng, kind: str, templater: str = "jinja") -> tuple[str, dict]
             text = "\n".join(lines) + "\n"
         meta["suppress"] = sup
     elif kind == "tmpl_undef":
-        add_fixable(rng.randint(0, 2))
+        add_fixable(rng.randint(1, 2), inline_only=True)
         text = brk_tmpl_undefined(rng, text)
     elif kind == "tmpl_fatal":
-        add_fixable(rng.randint(0, 2))
+        add_fixable(rng.randint(1, 2), inline_only=True)
         text = brk_tmpl_fatal(rng, text)
     elif kind == "jinja_fixable":
         add_fixable(rng.randint(1, 2))
